@@ -268,8 +268,6 @@ Section Inv.
   }.
 End Inv.
 
-Arguments PIdle {_}.
-(* phase does not depend on qf, but it was declared inside the section *)
 
 (** ** how the cells may change in one step, seen from thread [t] (another thread's step) *)
 Definition cells_evolve (t : nat) (g g' : G) : Prop :=
@@ -295,13 +293,6 @@ Proof.
   - left. rewrite E2 in K. rewrite E1. exact K.
 Qed.
 
-Lemma ce_mark t g g' s i : cells_evolve t g g' -> cmark g s i = true -> cmark g' s i = true.
-Proof.
-  intros H K. unfold cmark in *. destruct (H s i) as [E|[[E (z & E1 & _)]|(z & E1 & E2)]].
-  - now rewrite E.
-  - unfold cptr in E. destruct (cells g s i) as [p m]. cbn in *. subst.
-    (* a null cell is not marked: not derivable here; the caller supplies well-formedness *)
-    rewrite E1. cbn. (* cannot conclude *) Abort.
 
 Lemma ce_nonnull t g g' s i : cells_evolve t g g' -> cptr g s i <> None -> cptr g' s i <> None.
 Proof.
@@ -401,10 +392,120 @@ Proof.
   intros HS HT [V1 V2 V3] Hhp Hna Hlo Hce Hte Hlk. split.
   - intros t' e k Hin Hop. destruct Hte as [->|(te & -> & Hne)].
     + eapply V1; eauto.
-    + apply in_app_or in Hin. destruct Hin as [Hin|[<-|[]]].
+    + apply in_app_or in Hin. destruct Hin as [Hin|[E|[]]].
       * eapply V1; eauto.
-      * exfalso. eapply Hne. exact Hop.
+      * exfalso. subst te. eapply Hne. exact Hop.
   - intros l n E. destruct (V2 l n E) as (A & B & C). destruct Hlk as (A' & B' & C'); [congruence|].
     rewrite A', B', C'. auto.
   - eapply PH_stable; eauto.
+Qed.
+
+(** ** updating one thread's view *)
+Definition upd (a : Aux) (t : nat) (vw : view) : Aux := fun x => if Nat.eqb x t then vw else a x.
+
+Lemma upd_same a t vw : upd a t vw t = vw.
+Proof. unfold upd. now rewrite Nat.eqb_refl. Qed.
+Lemma upd_other a t vw t' : t' <> t -> upd a t vw t' = a t'.
+Proof. unfold upd. intros H. destruct (Nat.eqb_spec t' t); congruence. Qed.
+Lemma aview_upd_same a t vw : aview (upd a t vw) t = vw.
+Proof. apply upd_same. Qed.
+Lemma frame_upd a t vw : Conc.frame aview t a (upd a t vw).
+Proof. intros t' H. unfold aview. now apply upd_other. Qed.
+Lemma frame_refl a t : Conc.frame aview t a a.
+Proof. intros t' H. reflexivity. Qed.
+
+Lemma taker_marked qf g a tr t x : Inv qf g a tr -> taker (a t) x -> marked g x.
+Proof.
+  intros HI (rd & E). pose proof (vi_ph _ _ _ _ (inv_vi _ _ _ _ HI t)) as P. rewrite E in P. cbn in P. tauto.
+Qed.
+
+(** *** the general step rule: thread [t] moves from (g, tr) to (g', tr') and takes the view [vw'] *)
+Lemma Inv_step qf g a tr t g' tr' vw' :
+  Inv qf g a tr ->
+  SI qf g' -> TI g' tr' -> VI g' tr' t vw' ->
+  (* what the other threads see *)
+  (forall t', t' <> t -> hp g' t' 0 = hp g t' 0) ->
+  nalloc g <= nalloc g' -> lo g <= lo g' ->
+  (forall t', t' <> t -> cells_evolve t' g g') ->
+  (forall t', t' <> t -> trace_evolve t' tr tr') ->
+  (* lock *)
+  ((forall t', t' <> t -> v_lock (a t') = None) \/ (lockw g' = lockw g /\ slist g' = slist g /\ nalloc g' = nalloc g)) ->
+  (lockw g' = false -> v_lock vw' = None /\ (lockw g = false \/ v_lock (a t) <> None)) ->
+  (v_lock vw' <> None -> v_lock (a t) <> None \/ lockw g = false) ->
+  (* dequeued items *)
+  (forall x, taker vw' x -> taker (a t) x \/ ~ marked g x) ->
+  (forall x, taker vw' x -> count_ret x tr' = 0) ->
+  (forall x, count_ret x tr' = count_ret x tr \/ (taker (a t) x /\ count_ret x tr' = 1)) ->
+  (forall x, taker (a t) x -> taker vw' x \/ count_ret x tr' = 1) ->
+  (forall x, marked g' x -> marked g x \/ taker vw' x) ->
+  Inv qf g' (upd a t vw') tr'.
+Proof.
+  intros HI HS' HT' HV' Hhp Hna Hlo Hce Hte HL3 HL1 HL2 HTnew HTc0 HTcnt HTdrop HTmk.
+  pose proof (inv_si _ _ _ _ HI) as HS. pose proof (inv_ti _ _ _ _ HI) as HT.
+  split; auto.
+  - intros t'. destruct (Nat.eq_dec t' t) as [->|N].
+    + rewrite upd_same. exact HV'.
+    + rewrite upd_other by exact N. eapply VI_stable; eauto using (inv_vi _ _ _ _ HI).
+      intros Hh. destruct HL3 as [K|K]; [|exact K]. exfalso. apply Hh. apply K. exact N.
+  - intros Hf t'. destruct (HL1 Hf) as (A & B). destruct (Nat.eq_dec t' t) as [->|N].
+    + now rewrite upd_same.
+    + rewrite upd_other by exact N. destruct B as [B|B].
+      * eapply (inv_lock_free _ _ _ _ HI); eauto.
+      * destruct (v_lock (a t')) eqn:E; [|reflexivity]. exfalso. apply N.
+        eapply (inv_lock_uniq _ _ _ _ HI); congruence.
+  - intros t1 t2 H1 H2.
+    destruct (Nat.eq_dec t1 t) as [->|N1]; destruct (Nat.eq_dec t2 t) as [->|N2]; auto.
+    + rewrite upd_same in H1. rewrite upd_other in H2 by exact N2. destruct (HL2 H1) as [K|K].
+      * symmetry. eapply (inv_lock_uniq _ _ _ _ HI); eauto.
+      * exfalso. apply H2. eapply (inv_lock_free _ _ _ _ HI); eauto.
+    + rewrite upd_same in H2. rewrite upd_other in H1 by exact N1. destruct (HL2 H2) as [K|K].
+      * eapply (inv_lock_uniq _ _ _ _ HI); eauto.
+      * exfalso. apply H1. eapply (inv_lock_free _ _ _ _ HI); eauto.
+    + rewrite upd_other in H1 by exact N1. rewrite upd_other in H2 by exact N2.
+      eapply (inv_lock_uniq _ _ _ _ HI); eauto.
+  - intros x t1 t2 H1 H2.
+    destruct (Nat.eq_dec t1 t) as [->|N1]; destruct (Nat.eq_dec t2 t) as [->|N2]; auto.
+    + rewrite upd_same in H1. rewrite upd_other in H2 by exact N2. destruct (HTnew x H1) as [K|K].
+      * symmetry. eapply (inv_tk_uniq _ _ _ _ HI); eauto.
+      * exfalso. apply K. eapply taker_marked; eauto.
+    + rewrite upd_same in H2. rewrite upd_other in H1 by exact N1. destruct (HTnew x H2) as [K|K].
+      * eapply (inv_tk_uniq _ _ _ _ HI); eauto.
+      * exfalso. apply K. eapply taker_marked; eauto.
+    + rewrite upd_other in H1 by exact N1. rewrite upd_other in H2 by exact N2.
+      eapply (inv_tk_uniq _ _ _ _ HI); eauto.
+  - intros x t1 H1. destruct (Nat.eq_dec t1 t) as [->|N1].
+    + rewrite upd_same in H1. auto.
+    + rewrite upd_other in H1 by exact N1. destruct (HTcnt x) as [K|[K _]].
+      * rewrite K. eapply (inv_tk_cnt _ _ _ _ HI); eauto.
+      * exfalso. apply N1. eapply (inv_tk_uniq _ _ _ _ HI); eauto.
+  - intros x Hm. destruct (HTmk x Hm) as [K|K].
+    + destruct (inv_mk _ _ _ _ HI x K) as [C|(t1 & Ht1)].
+      * left. destruct (HTcnt x) as [E|[_ E]]; congruence.
+      * destruct (Nat.eq_dec t1 t) as [->|N1].
+        -- destruct (HTdrop x Ht1) as [D|D]; [right; exists t; now rewrite upd_same|left; exact D].
+        -- right. exists t1. now rewrite upd_other.
+    + right. exists t. now rewrite upd_same.
+Qed.
+
+(** a step that neither dequeues nor returns a dequeued item *)
+Lemma Inv_step_plain qf g a tr t g' tr' vw' :
+  Inv qf g a tr ->
+  SI qf g' -> TI g' tr' -> VI g' tr' t vw' ->
+  (forall t', t' <> t -> hp g' t' 0 = hp g t' 0) ->
+  nalloc g <= nalloc g' -> lo g <= lo g' ->
+  (forall t', t' <> t -> cells_evolve t' g g') ->
+  (forall t', t' <> t -> trace_evolve t' tr tr') ->
+  ((forall t', t' <> t -> v_lock (a t') = None) \/ (lockw g' = lockw g /\ slist g' = slist g /\ nalloc g' = nalloc g)) ->
+  (lockw g' = false -> v_lock vw' = None /\ (lockw g = false \/ v_lock (a t) <> None)) ->
+  (v_lock vw' <> None -> v_lock (a t) <> None \/ lockw g = false) ->
+  (forall x, taker vw' x <-> taker (a t) x) ->
+  (forall x, count_ret x tr' = count_ret x tr) ->
+  (forall x, marked g' x -> marked g x) ->
+  Inv qf g' (upd a t vw') tr'.
+Proof.
+  intros HI HS' HT' HV' Hhp Hna Hlo Hce Hte HL3 HL1 HL2 Htk Hcnt Hmk.
+  eapply Inv_step; eauto.
+  - intros x H. left. now apply Htk.
+  - intros x H. rewrite Hcnt. eapply (inv_tk_cnt _ _ _ _ HI). apply Htk. exact H.
+  - intros x H. left. now apply Htk.
 Qed.
